@@ -15,7 +15,7 @@ MUTANTS = [
     ('types::SourceMap::adjust_mappings', r'\.\.original_range\.value', '..adjustment_range.value'),
     ('types::SourceMap::adjust_mappings', r'\+ col_diff\) as u32', '- col_diff) as u32'),
     ('types::SourceMap::adjust_mappings::create_ranges', r'\(start\.0, u32::MAX\)\)', '(u32::MAX, u32::MAX))'),
-    ('types::SourceMap::adjust_mappings::create_ranges', r'verif_map_or_key\(token_iter\.peek\(\), \(u32::MAX, u32::MAX\), key\)', 'verif_map_or_key(token_iter.peek(), (0, 0), key)'),
+    ('types::SourceMap::adjust_mappings::create_ranges', r'verif_map_or_key\(token_iter\.peek\(\), \(u32::MAX, u32::MAX\), &key\)', 'verif_map_or_key(token_iter.peek(), (0, 0), &key)'),
 ]
 
 
